@@ -174,3 +174,75 @@ Proof.
   set (L := cln (cadd (csqrt (csub cone (cmul z z))) (cmul ci z))).
   destruct L as [a b]. unfold cadd, cadd_r, cmul, cneg, ci. cbn [re im fst snd]. f_equal; ring.
 Qed.
+(* ---------- inverse functions on the real axis ---------- *)
+Lemma catan_real x : catan (x, 0) = (atan x, 0).
+Proof.
+  unfold catan.
+  replace (cmul ci (x, 0)) with ((0, x) : C) by (csimpl; f_equal; ring).
+  replace (csub cone (0, x)) with ((1, - x) : C) by (csimpl; f_equal; ring).
+  replace (cadd cone (0, x)) with ((1, x) : C) by (csimpl; f_equal; ring).
+  unfold cln, arg, cabs, abs_sqr. cbn [re im fst snd].
+  rewrite !atan2_xpos by lra.
+  replace (- x / 1) with (- x) by field. replace (x / 1) with x by field.
+  rewrite atan_opp.
+  replace (1 * 1 + - x * - x) with (1 * 1 + x * x) by ring.
+  csimpl. f_equal; field.
+Qed.
+
+Lemma casinh_real x : casinh (x, 0) = (arcsinh x, 0).
+Proof.
+  unfold casinh.
+  replace (cadd_r (cmul (x, 0) (x, 0)) 1) with ((x * x + 1, 0) : C) by (csimpl; f_equal; ring).
+  assert (H1 : 0 < x * x + 1) by nra.
+  rewrite csqrt_real by lra.
+  replace (cadd (sqrt (x * x + 1), 0) (x, 0)) with ((x + sqrt (x * x + 1), 0) : C) by (csimpl; f_equal; ring).
+  assert (H2 : 0 < x + sqrt (x * x + 1)).
+  { pose proof (sqrt_pos (x * x + 1)) as Hp. pose proof (sqrt_sqrt (x * x + 1) (Rlt_le _ _ H1)) as Hq.
+    destruct (Rlt_dec 0 (x + sqrt (x * x + 1))) as [H|H]; [exact H | exfalso; nra]. }
+  rewrite cln_real by exact H2. unfold arcsinh. replace (x ^ 2) with (x * x) by ring. reflexivity.
+Qed.
+
+Lemma casin_real x : -1 < x < 1 -> casin (x, 0) = (asin x, 0).
+Proof.
+  intros Hx. unfold casin.
+  assert (H1 : 0 < 1 - x * x) by nra.
+  replace (csub cone (cmul (x, 0) (x, 0))) with ((1 - x * x, 0) : C) by (csimpl; f_equal; ring).
+  rewrite csqrt_real by lra.
+  replace (cadd (sqrt (1 - x * x), 0) (cmul ci (x, 0))) with ((sqrt (1 - x * x), x) : C) by (csimpl; f_equal; ring).
+  assert (Hs : 0 < sqrt (1 - x * x)) by (apply sqrt_lt_R0; exact H1).
+  unfold cln, arg, cabs, abs_sqr. cbn [re im fst snd].
+  rewrite atan2_xpos by exact Hs.
+  rewrite sqrt_sqrt by lra.
+  replace (1 - x * x + x * x) with 1 by ring. rewrite sqrt_1, ln_1.
+  rewrite asin_atan by exact Hx. unfold Rsqr.
+  csimpl. f_equal; ring.
+Qed.
+
+Lemma cacos_real x : -1 < x < 1 -> cacos (x, 0) = (acos x, 0).
+Proof.
+  intros Hx.
+  pose proof (asin_acos_sum (x, 0)) as H. rewrite casin_real in H by exact Hx.
+  rewrite acos_asin by lra.
+  destruct (cacos (x, 0)) as [a b]. unfold cadd in H. cbn [re im fst snd] in H.
+  inversion H. f_equal; lra.
+Qed.
+
+Lemma catanh_real x : -1 < x < 1 -> catanh (x, 0) = ((ln (1 + x) - ln (1 - x)) / 2, 0).
+Proof.
+  intros Hx. unfold catanh.
+  replace (cadd_r (x, 0) 1) with ((1 + x, 0) : C) by (csimpl; f_equal; ring).
+  replace (csub cone (x, 0)) with ((1 - x, 0) : C) by (csimpl; f_equal; ring).
+  rewrite !cln_real by lra. csimpl. f_equal; field.
+Qed.
+
+Lemma cacosh_real x : 1 <= x -> cacosh (x, 0) = (ln (x + sqrt (x - 1) * sqrt (x + 1)), 0).
+Proof.
+  intros Hx. unfold cacosh.
+  replace (csub_r (x, 0) 1) with ((x - 1, 0) : C) by (csimpl; f_equal; ring).
+  replace (cadd_r (x, 0) 1) with ((x + 1, 0) : C) by (csimpl; f_equal; ring).
+  rewrite !csqrt_real by lra.
+  replace (cadd (cmul (sqrt (x - 1), 0) (sqrt (x + 1), 0)) (x, 0))
+    with ((x + sqrt (x - 1) * sqrt (x + 1), 0) : C) by (csimpl; f_equal; ring).
+  rewrite cln_real; [reflexivity|].
+  pose proof (sqrt_pos (x - 1)). pose proof (sqrt_pos (x + 1)). nra.
+Qed.
